@@ -56,7 +56,7 @@ fn item(case: Case, plan: Plan, checks: u32) -> Item {
     }
     // hash sets iterate in an order that differs from instance to instance (RandomState): with more than
     // one element an execution could not be replayed, so these sources only run with <= 1 element
-    if matches!(case.src, Src::PHash | Src::PHashRef) && case.input.len() > 1 {
+    if matches!(case.src, Src::PHash | Src::PHashRef | Src::PHashMap | Src::PHashMapRef) && case.input.len() > 1 {
         case.input.truncate(1);
     }
     if !plan.single && plan.max_execs == 0 {
@@ -245,6 +245,40 @@ fn all_first_expansions(c: &Case, n: usize, alphabet: &[u64]) -> Vec<Case> {
     }
 }
 
+/// all {0,2}^6 expansion vectors of the first flat_map stage on chains around flat_map, for one terminal family:
+/// sequential, two workers (both chunk paths), three workers
+fn expansion_sweep(terms: &[Term], checks: u32, tier: Tier, seq_only: bool) -> Vec<Item> {
+    let th = tier == Tier::Thorough;
+    let mut out = Vec::new();
+    for ch in ["X", "XF", "XM", "MX", "XX", "FX", "OX", "XO"] {
+        for t in terms {
+            let cid = chains::CHAINS.iter().position(|c| *c == ch).unwrap();
+            if !term_ok(Src::SVec, cid, *t) {
+                continue;
+            }
+            let base = case(Src::SVec, 6, ch, *t);
+            let alphabet: &[u64] = if th { &[0, 1, 2] } else { &[0, 2] };
+            for mut mc in all_first_expansions(&base, 6, alphabet) {
+                mc.pmask = u64::MAX;
+                let mut sq = mc.clone();
+                sq.nt[0] = NtSet::N(1);
+                out.push(item(sq, Plan::base_np(), checks));
+                if seq_only {
+                    continue;
+                }
+                for (w, cs) in [(2usize, CsSet::N(1)), (2, CsSet::N(2)), (3, CsSet::N(3))] {
+                    let c = par(mc.clone(), w, cs);
+                    out.push(item(c.clone(), Plan::base_rr(), checks));
+                    if th {
+                        out.push(item(c, Plan::pb(1), checks));
+                    }
+                }
+            }
+        }
+    }
+    out
+}
+
 /// every (source kind, chain) unit that is instantiated
 fn all_units() -> Vec<(Src, usize)> {
     let mut v = Vec::new();
@@ -263,11 +297,16 @@ fn is_lite(cid: usize) -> bool {
 }
 
 fn term_ok(src: Src, cid: usize, t: Term) -> bool {
+    let tok_items = matches!(
+        src,
+        Src::SVec | Src::SIter | Src::PVec | Src::PIter | Src::PDeque | Src::PList | Src::PBTree | Src::PHeap | Src::PHash | Src::PConVec | Src::PConIter | Src::PConIterPar
+    );
+    let adaptor = matches!(src, Src::PClonedAd | Src::PCopiedAd | Src::PClonedIt);
     if t.needs_tok() {
-        return src.item_kind() == hcore::case::ItemKind::Owned && chains::TOK_SUBSET.contains(&cid);
+        return tok_items && chains::TOK_SUBSET.contains(&cid);
     }
     if matches!(t, Term::FindIdx | Term::FirstIdx) {
-        return chains::INFO[cid].3 && !is_lite(cid);
+        return chains::INFO[cid].3 && !is_lite(cid) && !adaptor;
     }
     if is_lite(cid) {
         return LITE_TERMS.contains(&t);
@@ -433,6 +472,7 @@ pub fn items(prop: &str, tier: Tier) -> Vec<Item> {
             let kernels: Vec<&str> = if th { KC[1..].to_vec() } else { KC4.to_vec() };
             out.extend(engine_s(&terms, CK_RESULT, tier, &kernels, true));
             out.extend(engine_lag(&[Term::CollectVec, Term::Collect], CK_RESULT, tier, &KC[1..]));
+            out.extend(expansion_sweep(&[Term::CollectVec], CK_RESULT, tier, false));
             out.extend(engine_fine(&[Term::CollectVec, Term::Collect], CK_RESULT, tier, &KC4));
             out.extend(engine_e(&[Term::CollectVec, Term::Collect, Term::IntoVec], CK_RESULT, tier, &[], &[]));
         }
@@ -476,17 +516,29 @@ pub fn items(prop: &str, tier: Tier) -> Vec<Item> {
                 }
             }
             out.extend(engine_lag(&[Term::Find], CK_RESULT, tier, &["", "M", "MF", "OF", "XF"]));
+            out.extend(expansion_sweep(&[Term::First, Term::Find, Term::Any], CK_RESULT, tier, false));
             out.extend(engine_fine(&[Term::Find, Term::First, Term::Any, Term::FindIdx], CK_RESULT, tier, &["", "M", "MF", "OF", "XF"]));
             // *_with_index on the concrete builder types
             for ch in ["", "M", "F", "MF", "MM", "FF"] {
-                for cs in [CsSet::N(1), CsSet::N(2)] {
-                    for pm in 0..16u64 {
-                        let mut c = par(case(Src::SVec, 4, ch, Term::FindIdx), 2, cs);
+                // (N, c): full chunks, a short last chunk, a chunk longer than the input
+                for (n, c) in [(4usize, 1usize), (4, 2), (5, 2), (4, 3), (5, 3), (7, 4), (3, 5)] {
+                    let cs = CsSet::N(c);
+                    for pm in 0..(1u64 << n) {
+                        if n > 5 && pm.count_ones() > 2 {
+                            continue;
+                        }
+                        let mut c = par(case(Src::SVec, n, ch, Term::FindIdx), 2, cs);
                         c.pmask = pm;
-                        out.push(item(c, if th { Plan::full() } else { Plan::pb(2) }, CK_RESULT));
+                        out.push(item(c.clone(), if th { Plan::full() } else { Plan::pb(2) }, CK_RESULT));
+                        if n == 5 {
+                            let mut ci = par(case(Src::SIter, n, ch, Term::FindIdx), 2, cs);
+                            ci.known = pm % 2 == 0;
+                            ci.pmask = pm;
+                            out.push(item(ci, Plan::pb(1), CK_RESULT));
+                        }
                     }
-                    for fm in [u64::MAX, 0b1000, 0b0100, 0b1010, 0] {
-                        let mut c = par(case(Src::SVec, 4, ch, Term::FirstIdx), 2, cs);
+                    for fm in [u64::MAX, 0b1000, 0b0100, 0b1010, 0b10000, 0] {
+                        let mut c = par(case(Src::SVec, n, ch, Term::FirstIdx), 2, cs);
                         if let Some(i) = filters_in(ch).first() {
                             c.fmask[*i] = fm;
                         }
@@ -556,6 +608,7 @@ pub fn items(prop: &str, tier: Tier) -> Vec<Item> {
                 }
             }
             out.extend(engine_lag(&[Term::Reduce], CK_RESULT, tier, &KC));
+            out.extend(expansion_sweep(&[Term::Reduce], CK_RESULT, tier, false));
             out.extend(engine_fine(&[Term::Reduce], CK_RESULT, tier, &["", "M", "MF", "OF", "XF"]));
             out.extend(engine_e(&[Term::Reduce], CK_RESULT, tier, &[], &[0, 1, 2, 3]));
         }
@@ -564,6 +617,7 @@ pub fn items(prop: &str, tier: Tier) -> Vec<Item> {
             let kernels: Vec<&str> = KC.to_vec();
             out.extend(engine_s(&[Term::Count, Term::ForEach], CK_RESULT, tier, &kernels, true));
             out.extend(engine_lag(&[Term::Count], CK_RESULT, tier, &KC));
+            out.extend(expansion_sweep(&[Term::Count, Term::ForEach], CK_RESULT, tier, false));
             out.extend(engine_fine(&[Term::Count, Term::ForEach], CK_RESULT, tier, &["", "M", "MF", "OF", "XF"]));
             out.extend(engine_e(&[Term::Count, Term::ForEach], CK_RESULT, tier, &[], &[]));
         }
@@ -633,6 +687,35 @@ pub fn items(prop: &str, tier: Tier) -> Vec<Item> {
                     }
                 }
             }
+            // targets filled up to (and around) a fragment / capacity boundary
+            for (src, known) in [(Src::SVec, true), (Src::PVec, true), (Src::SIter, true), (Src::SIter, false)] {
+                for ch in ["M", "MF", "", "XF"] {
+                    for (t, pres) in [
+                        (Term::IntoSplitD, vec![3usize, 4, 5, 11, 12, 13, 27, 28, 29, 59, 60, 61]),
+                        (Term::IntoSplitL2, vec![3, 4, 5, 7, 8, 9, 15, 16, 17, 20]),
+                        (Term::IntoFixed, vec![4, 8, 16]),
+                        (Term::IntoVec, vec![4, 8, 16]),
+                    ] {
+                        if t == Term::IntoSplitL2 && !known {
+                            continue;
+                        }
+                        for pre in pres {
+                            for n in [0usize, 1, 2, 5] {
+                                for (w, cs) in [(2usize, CsSet::N(1)), (3, CsSet::Keep), (1, CsSet::Keep)] {
+                                    let mut c = par(case(src, n, ch, t), w, cs);
+                                    c.known = known;
+                                    c.prefix = pre;
+                                    c.spare = 0;
+                                    out.push(item(c.clone(), Plan::base_np(), CK_RESULT));
+                                    if w > 1 {
+                                        out.push(item(c, Plan::base_rr(), CK_RESULT));
+                                    }
+                                }
+                            }
+                        }
+                    }
+                }
+            }
             // offset writes of the map-only kernel, every interleaving
             for t in targets {
                 for cs in [CsSet::N(1), CsSet::N(2)] {
@@ -667,6 +750,7 @@ pub fn items(prop: &str, tier: Tier) -> Vec<Item> {
                 }
             }
             out.extend(engine_lag(&[Term::CollectX], CK_RESULT, tier, &KC));
+            out.extend(expansion_sweep(&[Term::CollectX], CK_RESULT, tier, false));
             out.extend(engine_fine(&[Term::CollectX], CK_RESULT, tier, &KC));
             out.extend(engine_e(&[Term::CollectX], CK_RESULT, tier, &[], &[]));
         }
@@ -766,6 +850,7 @@ pub fn items(prop: &str, tier: Tier) -> Vec<Item> {
         // sequential mode == std
         "C09" => {
             let ck = CK_RESULT | CK_CALLSEQ | CK_THREADS | CK_EARLY;
+            out.extend(expansion_sweep(&[Term::CollectVec, Term::First, Term::Find, Term::Count, Term::Reduce, Term::CollectX], ck, tier, true));
             let terms = [
                 Term::CollectVec, Term::Collect, Term::CollectX, Term::IntoVec, Term::IntoSplitD, Term::IntoSplitL, Term::IntoFixed, Term::Count, Term::ForEach, Term::Reduce, Term::Find,
                 Term::First, Term::Any, Term::All, Term::FindIdx, Term::FirstIdx, Term::Fold, Term::Sum, Term::Min, Term::Max, Term::MinBy, Term::MaxBy, Term::MinByKey, Term::MaxByKey,
@@ -1000,10 +1085,10 @@ pub fn items(prop: &str, tier: Tier) -> Vec<Item> {
         // parameters propagate
         "C12" => {
             let ck = CK_PARAMS;
-            let nts = [NtSet::Keep, NtSet::N(0), NtSet::N(1), NtSet::N(2), NtSet::N(5), NtSet::Auto, NtSet::Max(2)];
-            let css = [CsSet::Keep, CsSet::N(0), CsSet::N(1), CsSet::N(2), CsSet::N(5), CsSet::Auto, CsSet::Min(3), CsSet::Exact(4)];
+            let nts = [NtSet::Keep, NtSet::N(0), NtSet::N(1), NtSet::N(2), NtSet::N(5), NtSet::Auto, NtSet::Max(1), NtSet::Max(2), NtSet::Max(usize::MAX)];
+            let css = [CsSet::Keep, CsSet::N(0), CsSet::N(1), CsSet::N(2), CsSet::N(5), CsSet::Auto, CsSet::Min(1), CsSet::Min(3), CsSet::Exact(1), CsSet::Exact(4), CsSet::Min(usize::MAX), CsSet::Exact(usize::MAX)];
             let nts2 = [NtSet::Keep, NtSet::N(1), NtSet::N(2), NtSet::Auto];
-            let css2 = [CsSet::Keep, CsSet::N(2), CsSet::Min(3), CsSet::Auto];
+            let css2 = [CsSet::Keep, CsSet::N(2), CsSet::Min(1), CsSet::Auto];
             for (src, cid) in all_units() {
                 let full_src = matches!(src, Src::SVec | Src::SIter | Src::PVec);
                 let np = chains::CHAINS[cid].len() + 1;
@@ -1193,6 +1278,17 @@ pub fn items(prop: &str, tier: Tier) -> Vec<Item> {
                             c.known = known;
                             c.fault = Some((ST_RED, ANY_ID));
                             out.push(item(c.clone(), Plan::pb(2), ck));
+                            out.push(item(c, Plan::db(1), ck));
+                        }
+                    }
+                    // every call of a stage panics: several workers panic in the same run
+                    for (w, cs) in [(2usize, CsSet::N(1)), (3, CsSet::N(1)), (3, CsSet::N(2))] {
+                        for st in 0..ch.len() {
+                            let mut c = par(case(src, 5, ch, *t), w, cs);
+                            c.known = known;
+                            c.pmask = 1 << 4;
+                            c.fault = Some((st as u8, hcore::closures::ALL_ID));
+                            out.push(item(c.clone(), Plan::pb(1), ck));
                             out.push(item(c, Plan::db(1), ck));
                         }
                     }
